@@ -305,6 +305,10 @@ def _capacity_backed(ctx):
 
 def run(ctx):
     P = ctx.P
+    ctx.clause("C04.14 an index that was range-checked was checked against the entry count of the array it then subscripts (a row group may claim more chunks than the schema has leaves)")
+    from ..rules import indexspace
+    nic = indexspace.check_counts(ctx, P.funcs_under("src/reader/", "src/metadata/schema.c"))
+    ctx.floor("C04 range-checked subscripts of counted arrays", nic, 20)
     ctx.clause("C04.1 untrusted offsets/sizes/counts are validated before they reach a sink")
     ctx.clause("C04.2 recursion bounded")
     ctx.clause("C04.3 reader functions release everything on every path")
